@@ -103,7 +103,9 @@ impl Acc {
     #[inline]
     pub fn call<R>(&mut self, stage: usize, f: impl FnOnce() -> R) -> Option<R> {
         self.calls += 1;
-        mark(stage, self.calls);
+        // batch drivers: the marker names the sub-case (item / program index) so that a worker death is
+        // attributed to it and the batch resumes right after it; otherwise the call counter
+        mark(stage, self.sub_override.unwrap_or(self.calls));
         match vcore::guard(f) {
             Ok(r) => Some(r),
             Err(p) => {
